@@ -1,4 +1,4 @@
-From Coq Require Import Bool String List Arith.
+From Coq Require Import Bool String List Arith Permutation.
 From Verif Require Base.Str.
 From Verif Require Import C01.Model C01.Spec.
 From VerifGen Require Import C01Tables.
@@ -589,3 +589,428 @@ Proof.
   rewrite E1, E2, E3. apply sp_run_same_force. unfold same_force, wr_c, wa_c, wor_c, only_md. cbn [c_wr c_wa c_wor c_only].
   rewrite F1, F2, F3. repeat split; reflexivity.
 Qed.
+
+(* ---- round 5: several assertions in one Response ----------------------------------------------------- *)
+Lemma first_err_done l : is_done (first_err l) = forallb is_done l.
+Proof. induction l as [|o l IH]; [reflexivity|]. destruct o; cbn; auto. Qed.
+
+Lemma run_chk_mono1 k : run_chk true k = Done -> run_chk false k = Done.
+Proof. destruct k as [s im|s|s im]; destruct s; try destruct im; cbn; congruence. Qed.
+
+Lemma run_chk_mono2 k : run_chk false k = Done -> run_chk true k = Done \/ run_chk true k = SignatureErr.
+Proof. destruct k as [s im|s|s im]; destruct s; try destruct im; cbn; intros H; try discriminate H; auto. Qed.
+
+Lemma first_err_mono1 sch : first_err (map (run_chk true) sch) = Done -> first_err (map (run_chk false) sch) = Done.
+Proof.
+  induction sch as [|k sch IH]; [reflexivity|]. cbn [map first_err].
+  destruct (run_chk true k) eqn:E; try discriminate. intros H. rewrite (run_chk_mono1 _ E). auto.
+Qed.
+
+Lemma first_err_mono2 sch :
+  first_err (map (run_chk false) sch) = Done ->
+  first_err (map (run_chk true) sch) = Done \/ first_err (map (run_chk true) sch) = SignatureErr.
+Proof.
+  induction sch as [|k sch IH]; [auto|]. cbn [map first_err].
+  destruct (run_chk false k) eqn:E; try discriminate. intros H.
+  destruct (run_chk_mono2 _ E) as [E'|E']; rewrite E'; auto.
+Qed.
+
+Lemma core_gen_char wr wa wor r v b :
+  (v true = Done -> v false = Done) ->
+  (v false = Done -> v true = Done \/ v true = SignatureErr) ->
+  core_gen wr wa wor r v b =
+  negb (is_paos b) && is_done (load_response wr r) && is_done (v wa)
+  && negb (wor && negb (is_done (load_response true r)) && negb (is_done (v true))).
+Proof.
+  intros H1 H2. unfold core_gen.
+  destruct (v true) eqn:E1; destruct (v false) eqn:E2;
+    try (specialize (H1 eq_refl); discriminate H1);
+    try (destruct (H2 eq_refl) as [K|K]; discriminate K);
+    destruct b, r, wr, wa, wor; cbn; rewrite ?E1, ?E2; reflexivity.
+Qed.
+
+Lemma core_is_gen wr wa wor r a im b :
+  core wr wa wor r a im b = core_gen wr wa wor r (fun q => verify_assertions q a im) b.
+Proof. destruct b, r, a, im, wr, wa, wor; reflexivity. Qed.
+
+Lemma core_char wr wa wor r a im b :
+  core wr wa wor r a im b =
+  negb (is_paos b) && is_done (load_response wr r) && is_done (verify_assertions wa a im)
+  && negb (wor && negb (is_done (load_response true r)) && negb (is_done (verify_assertions true a im))).
+Proof. destruct b, r, a, im, wr, wa, wor; reflexivity. Qed.
+
+(* the three checks of a decrypted assertion amount to the one of a plain assertion *)
+Lemma enc_checks q s im :
+  is_done (run_chk q (KDecrypted s)) && is_done (run_chk q (KRest s im)) = is_done (run_chk q (KPlain s im)).
+Proof. destruct q, s, im; reflexivity. Qed.
+
+Lemma forallb_andb {A} (f g : A -> bool) l : forallb (fun x => f x && g x) l = forallb f l && forallb g l.
+Proof.
+  induction l as [|x l IH]; [reflexivity|]. cbn. rewrite IH.
+  destruct (f x), (g x), (forallb f l), (forallb g l); reflexivity.
+Qed.
+
+Lemma forallb_split {A} (p f : A -> bool) l :
+  forallb f (filter (fun x => negb (p x)) l) && forallb f (filter p l) = forallb f l.
+Proof.
+  induction l as [|x l IH]; [reflexivity|]. cbn. destruct (p x); cbn; rewrite <- IH;
+  destruct (f x), (forallb f (filter (fun x => negb (p x)) l)), (forallb f (filter p l)); reflexivity.
+Qed.
+
+Lemma forallb_map' {A B} (f : A -> B) (g : B -> bool) l : forallb g (map f l) = forallb (fun x => g (f x)) l.
+Proof. induction l as [|x l IH]; [reflexivity|]. cbn. rewrite IH. reflexivity. Qed.
+
+Lemma forallb_ext' {A} (f g : A -> bool) l : (forall x, f x = g x) -> forallb f l = forallb g l.
+Proof. intros H. induction l as [|x l IH]; [reflexivity|]. cbn. rewrite H, IH. reflexivity. Qed.
+
+Definition x_done (only_md q : bool) (mm : mmsg) (x : asn) : bool :=
+  is_done (verify_assertions q (x_find only_md mm x) (x_im mm x)).
+
+Lemma schedule_done only q mm :
+  forallb is_done (map (run_chk q) (schedule only mm)) = forallb (x_done only q mm) (mm_asl mm).
+Proof.
+  unfold schedule. rewrite !map_app, !forallb_app, !map_map.
+  rewrite <- (forallb_split x_enc (x_done only q mm) (mm_asl mm)).
+  unfold plain_of, enc_of, is_plain. f_equal.
+  - rewrite forallb_map'. reflexivity.
+  - rewrite !forallb_map'. rewrite <- forallb_andb. apply forallb_ext'. intros x. apply enc_checks.
+Qed.
+
+Lemma parse_mmsg_eq c mm :
+  parse_mmsg c mm =
+  core_gen (wr_c c) (wa_c c) (wor_c c) (look (only_md c) (mm_rwho mm) (mm_schema_ok mm) (mm_rs mm))
+           (fun q => verify_all q (count_ok (mm_asl mm)) (schedule (only_md c) mm)) (mm_bind mm).
+Proof.
+  unfold parse_mmsg, wr_c, wa_c, wor_c, only_md.
+  destruct c as [o1 o2 o3 o4]; destruct o1 as [|[|]|], o2 as [|[|]|], o3 as [|[|]|], o4 as [|[|]|]; reflexivity.
+Qed.
+
+Lemma verify_all_mono1 okc sch : verify_all true okc sch = Done -> verify_all false okc sch = Done.
+Proof. unfold verify_all. destruct okc; cbn; [apply first_err_mono1 | discriminate]. Qed.
+
+Lemma verify_all_mono2 okc sch :
+  verify_all false okc sch = Done -> verify_all true okc sch = Done \/ verify_all true okc sch = SignatureErr.
+Proof. unfold verify_all. destruct okc; cbn; [apply first_err_mono2 | discriminate]. Qed.
+
+Lemma verify_all_done q okc sch : is_done (verify_all q okc sch) = okc && forallb is_done (map (run_chk q) sch).
+Proof. unfold verify_all. destruct okc; cbn; [apply first_err_done | reflexivity]. Qed.
+
+(* the verdict on a Response with a list of assertions, in closed form *)
+Lemma parse_mmsg_char c mm :
+  let R := look (only_md c) (mm_rwho mm) (mm_schema_ok mm) (mm_rs mm) in
+  let V q := count_ok (mm_asl mm) && forallb (x_done (only_md c) q mm) (mm_asl mm) in
+  parse_mmsg c mm =
+  negb (is_paos (mm_bind mm)) && is_done (load_response (wr_c c) R) && V (wa_c c)
+  && negb (wor_c c && negb (is_done (load_response true R)) && negb (V true)).
+Proof.
+  cbv zeta. rewrite parse_mmsg_eq.
+  rewrite core_gen_char; [|apply verify_all_mono1|apply verify_all_mono2].
+  rewrite !verify_all_done, !schedule_done. reflexivity.
+Qed.
+
+Lemma parse_message_char c m :
+  let R := look (only_md c) (r_who m) (r_schema_ok m) (m_rs m) in
+  let V q := is_done (verify_assertions q (look (only_md c) (a_issuer m) (has_issuer (a_who m)) (m_as m)) (issuers_match m)) in
+  parse_message c m =
+  negb (is_paos (m_bind m)) && is_done (load_response (wr_c c) R) && V (wa_c c)
+  && negb (wor_c c && negb (is_done (load_response true R)) && negb (V true)).
+Proof. cbv zeta. rewrite parse_message_eq. apply core_char. Qed.
+
+Lemma count_ok_nonempty l : count_ok l = true -> l <> [].
+Proof. intros H E. subst l. discriminate H. Qed.
+
+Lemma forallb_const {A} (k : bool) (l : list A) : l <> [] -> forallb (fun _ => k) l = k.
+Proof.
+  intros H. destruct l as [|x l]; [congruence|]. clear H. cbn.
+  induction l as [|y l IH]; cbn; [apply andb_true_r|]. destruct k; auto.
+Qed.
+
+Lemma forallb_ext_in {A} (f g : A -> bool) l : (forall x, In x l -> f x = g x) -> forallb f l = forallb g l.
+Proof.
+  induction l as [|x l IH]; intros H; [reflexivity|]. cbn. rewrite (H x (or_introl eq_refl)), IH; [reflexivity|].
+  intros y Hy. apply H. right. exact Hy.
+Qed.
+
+Lemma forallb_false_impl {A} (f g : A -> bool) l :
+  (forall x, f x = false -> g x = false) -> forallb f l = false -> forallb g l = false.
+Proof.
+  intros H. induction l as [|x l IH]; cbn; [congruence|].
+  destruct (f x) eqn:E; cbn.
+  - intros K. rewrite (IH K). apply andb_false_r.
+  - intros _. rewrite (H x E). reflexivity.
+Qed.
+
+Lemma forallb_either {A} (a b c : bool) (f g : A -> bool) l :
+  l <> [] ->
+  forallb (fun x => a && b && f x && negb (c && negb (g x))) l = a && b && forallb f l && negb (c && negb (forallb g l)).
+Proof.
+  intros H.
+  rewrite (forallb_andb (fun x => a && b && f x) (fun x => negb (c && negb (g x)))).
+  rewrite (forallb_andb (fun x => a && b) f). rewrite (forallb_const (a && b) l H).
+  f_equal. destruct c; cbn [andb negb].
+  - rewrite negb_involutive. apply forallb_ext'. intros x. apply negb_involutive.
+  - apply forallb_const, H.
+Qed.
+
+(* a signed Response around a plain assertion that names no issuer fails the schema: never loaded *)
+Lemma load_noschema q only w g : is_done (load_response q (look only w false (Some g))) = false.
+Proof. unfold look, check_signature. destruct (is_nil _); cbn; destruct q; reflexivity. Qed.
+
+Lemma r_schema_as_msg mm x : r_schema_ok (as_msg mm x) = x_schema_ok x.
+Proof. reflexivity. Qed.
+
+(* DECOMPOSITION: a Response with a list of assertions yields an identity exactly when the number rule of
+   parse_assertion admits the list and the Response yields one with EVERY SINGLE of its assertions *)
+Lemma decomposition c mm :
+  parse_mmsg c mm = count_ok (mm_asl mm) && forallb (fun x => parse_message c (as_msg mm x)) (mm_asl mm).
+Proof.
+  rewrite parse_mmsg_char. cbv zeta.
+  destruct (count_ok (mm_asl mm)) eqn:Hc; cbn [andb]; [|rewrite !andb_false_r; reflexivity].
+  pose proof (count_ok_nonempty _ Hc) as Hne.
+  destruct (mm_rs mm) as [g|] eqn:Hrs.
+  - destruct (mm_schema_ok mm) eqn:Hs.
+    + rewrite <- (forallb_either _ _ _ _ _ _ Hne). apply forallb_ext_in. intros x Hx.
+      rewrite parse_message_char. cbv zeta. rewrite r_schema_as_msg. cbn [as_msg r_who m_rs m_bind a_who m_as].
+      unfold mm_schema_ok in Hs. rewrite forallb_forall in Hs. rewrite (Hs x Hx), Hrs. reflexivity.
+    + rewrite load_noschema, andb_false_r. cbn [andb]. symmetry.
+      unfold mm_schema_ok in Hs. apply (forallb_false_impl x_schema_ok _ _ ) with (2 := Hs).
+      intros x Hx. rewrite parse_message_char. cbv zeta. rewrite r_schema_as_msg, Hx. cbn [as_msg r_who m_rs].
+      rewrite Hrs, load_noschema, andb_false_r. reflexivity.
+  - rewrite <- (forallb_either _ _ _ _ _ _ Hne). apply forallb_ext_in. intros x Hx.
+    rewrite parse_message_char. cbv zeta. cbn [as_msg r_who m_rs m_bind a_who m_as]. rewrite Hrs. reflexivity.
+Qed.
+
+(* the messages of the earlier rounds are the one-assertion instance *)
+Lemma as_msg_embed m : as_msg (embed m) (asn_of m) = m.
+Proof. destruct m; reflexivity. Qed.
+
+Lemma parse_mmsg_embed c m : parse_mmsg c (embed m) = parse_message c m.
+Proof.
+  rewrite decomposition. cbn [embed mm_asl forallb]. rewrite as_msg_embed, andb_true_r.
+  unfold count_ok, plain_of, enc_of, is_plain. cbn [filter asn_of x_enc]. destruct (m_enc m); reflexivity.
+Qed.
+
+(* ---- reflection ---- *)
+Lemma ok_b_iff s : ok_b s = true <-> ok s.
+Proof. unfold ok. destruct s; cbn; split; intros H; try reflexivity; try discriminate; auto; destruct H; discriminate. Qed.
+Lemma valid_b_iff s : valid_b s = true <-> s = Valid.
+Proof. destruct s; cbn; split; intros H; try reflexivity; try discriminate. Qed.
+
+Lemma forallb_Forall {A} (f : A -> bool) (P : A -> Prop) l :
+  (forall x, f x = true <-> P x) -> (forallb f l = true <-> Forall P l).
+Proof.
+  intros H. rewrite forallb_forall, Forall_forall. split; intros K x Hx; apply H, K, Hx.
+Qed.
+
+Lemma implb_iff a b : implb a b = true <-> (a = true -> b = true).
+Proof. destruct a, b; cbn; intuition congruence. Qed.
+
+Lemma satisfied_mm_b_iff c mm : satisfied_mm_b c mm = true <-> satisfied_mm c mm.
+Proof.
+  unfold satisfied_mm_b, satisfied_mm. rewrite !andb_true_iff, !implb_iff, orb_true_iff.
+  rewrite (forallb_Forall _ (fun x => ok (x_state c x))) by (intros x; apply ok_b_iff).
+  rewrite (forallb_Forall _ (fun x => x_state c x = Valid)) by (intros x; apply valid_b_iff).
+  rewrite ok_b_iff, valid_b_iff. tauto.
+Qed.
+
+Lemma count_ok_iff l : count_ok l = true <-> (length (plain_of l) = 1 \/ length (enc_of l) = 1).
+Proof. unfold count_ok. rewrite orb_true_iff, !Nat.eqb_eq. tauto. Qed.
+
+Lemma who_eqb_eq a b : who_eqb a b = true <-> a = b.
+Proof. destruct a, b; cbn; split; intros H; try reflexivity; try discriminate. Qed.
+Lemma has_issuer_iff w : has_issuer w = true <-> w <> WNone.
+Proof. destruct w; cbn; split; intros H; try reflexivity; try discriminate; congruence. Qed.
+Lemma is_paos_iff b : negb (is_paos b) = true <-> b <> PAOS.
+Proof. destruct b; cbn; split; intros H; try reflexivity; try discriminate; congruence. Qed.
+
+Lemma otherwise_valid_mm_b_iff mm : otherwise_valid_mm_b mm = true <-> otherwise_valid_mm mm.
+Proof.
+  unfold otherwise_valid_mm_b, otherwise_valid_mm. rewrite !andb_true_iff, is_paos_iff, orb_true_iff, !Nat.eqb_eq.
+  rewrite (forallb_Forall _ (fun x => x_who x <> WNone /\ (mm_rwho mm = WNone \/ mm_rwho mm = x_who x) /\ sig_in_profile (x_sig x) = true)).
+  - tauto.
+  - intros x. rewrite !andb_true_iff, orb_true_iff, has_issuer_iff, who_eqb_eq.
+    assert (negb (has_issuer (mm_rwho mm)) = true <-> mm_rwho mm = WNone) as -> by (destruct (mm_rwho mm); cbn; split; congruence).
+    tauto.
+Qed.
+
+Lemma nonempty_iff {A} (l : list A) : nonempty l = true <-> l <> [].
+Proof. destruct l; cbn; split; congruence. Qed.
+
+Lemma spec_mm_b_iff c mm i : spec_mm_b c mm i = true <-> spec_mm c mm i.
+Proof.
+  unfold spec_mm_b, spec_mm. rewrite andb_true_iff, !implb_iff, !andb_true_iff, nonempty_iff.
+  rewrite satisfied_mm_b_iff, otherwise_valid_mm_b_iff. tauto.
+Qed.
+
+(* ---- the property for a Response with any list of assertions ---- *)
+Lemma parse_mmsg_true c mm :
+  parse_mmsg c mm = true <-> count_ok (mm_asl mm) = true /\ Forall (fun x => parse_message c (as_msg mm x) = true) (mm_asl mm).
+Proof. rewrite decomposition, andb_true_iff, forallb_forall, Forall_forall. tauto. Qed.
+
+Lemma policy_holds_mm c mm : spec_mm c mm (parse_mmsg c mm).
+Proof.
+  split.
+  - intros H. apply parse_mmsg_true in H. destruct H as [Hc Hall].
+    pose proof (count_ok_nonempty _ Hc) as Hne. split; [exact Hne|].
+    assert (Forall (fun x => satisfied_m c (as_msg mm x)) (mm_asl mm)) as Hs.
+    { rewrite Forall_forall in *. intros x Hx. destruct (policy_holds_m c (as_msg mm x)) as [K _]. apply K, Hall, Hx. }
+    clear Hall Hc. unfold satisfied_mm. unfold satisfied_m in Hs.
+    change (fun x => ok (r_state c (as_msg mm x)) /\ ok (a_state c (as_msg mm x))
+                     /\ (wr_c c = true -> r_state c (as_msg mm x) = Valid) /\ (wa_c c = true -> a_state c (as_msg mm x) = Valid)
+                     /\ (wor_c c = true -> r_state c (as_msg mm x) = Valid \/ a_state c (as_msg mm x) = Valid))
+      with (fun x => ok (rr_state c mm) /\ ok (x_state c x) /\ (wr_c c = true -> rr_state c mm = Valid)
+                     /\ (wa_c c = true -> x_state c x = Valid) /\ (wor_c c = true -> rr_state c mm = Valid \/ x_state c x = Valid)) in Hs.
+    destruct (mm_asl mm) as [|x0 l] eqn:El; [congruence|].
+    pose proof (Forall_inv Hs) as (H1 & _ & H3 & _ & _).
+    rewrite Forall_forall in Hs.
+    repeat split.
+    + exact H1.
+    + apply Forall_forall. intros x Hx. apply (Hs x Hx).
+    + exact H3.
+    + intros W. apply Forall_forall. intros x Hx. apply (Hs x Hx), W.
+    + intros W. destruct (rr_state c mm) eqn:Er; try (left; reflexivity); right; apply Forall_forall; intros x Hx;
+        destruct (Hs x Hx) as (_ & _ & _ & _ & K); destruct (K W) as [K'|K']; try discriminate K'; exact K'.
+  - intros (S1 & S2 & S3 & S4 & S5) (O1 & O2 & O3 & O4).
+    apply parse_mmsg_true. split; [apply count_ok_iff, O2|].
+    rewrite Forall_forall in *. intros x Hx.
+    destruct (policy_holds_m c (as_msg mm x)) as [_ K]. apply K.
+    + unfold satisfied_m.
+      change (r_state c (as_msg mm x)) with (rr_state c mm). change (a_state c (as_msg mm x)) with (x_state c x).
+      repeat split; auto.
+      intros W. destruct (S5 W) as [K'|K']; [left; exact K'|right]. apply K', Hx.
+    + destruct (O3 x Hx) as (A1 & A2 & A3). unfold otherwise_valid. cbn [as_msg m_bind a_who r_who m_rs m_as]. auto.
+Qed.
+
+Lemma table_mm c mm : spec_mm_b c mm (parse_mmsg c mm) = true.
+Proof. apply spec_mm_b_iff, policy_holds_mm. Qed.
+
+(* every signature that any assertion of the Response carries must verify, whatever the options *)
+Lemma identity_needs_every_assertion c mm :
+  parse_mmsg c mm = true -> forall x, In x (mm_asl mm) -> x_sig x <> None -> x_state c x = Valid.
+Proof.
+  intros H x Hx Hsig. destruct (policy_holds_mm c mm) as [K _]. destruct (K H) as (_ & _ & S2 & _).
+  rewrite Forall_forall in S2. specialize (S2 x Hx). unfold x_state in *.
+  destruct (x_sig x) as [g|]; [|congruence].
+  destruct S2 as [S2|S2]; [|exact S2]. exfalso. exact (state_present _ _ _ S2).
+Qed.
+
+(* ---- the order of the assertions in the Response is irrelevant ---- *)
+Lemma filter_length_perm {A} (p : A -> bool) l l' : Permutation l l' -> length (filter p l) = length (filter p l').
+Proof.
+  induction 1 as [|x l l' _ IH|x y l|l l' l'' _ IH1 _ IH2]; cbn.
+  - reflexivity.
+  - destruct (p x); cbn; congruence.
+  - destruct (p x), (p y); reflexivity.
+  - congruence.
+Qed.
+
+Lemma forallb_perm {A} (f : A -> bool) l l' : Permutation l l' -> forallb f l = forallb f l'.
+Proof.
+  induction 1 as [|x l l' _ IH|x y l|l l' l'' _ IH1 _ IH2]; cbn.
+  - reflexivity.
+  - rewrite IH. reflexivity.
+  - destruct (f x), (f y); reflexivity.
+  - congruence.
+Qed.
+
+Definition with_assertions (mm : mmsg) (l : list asn) : mmsg :=
+  {| mm_rwho := mm_rwho mm; mm_rs := mm_rs mm; mm_asl := l; mm_bind := mm_bind mm |}.
+
+Lemma order_irrelevant c mm l l' :
+  Permutation l l' -> parse_mmsg c (with_assertions mm l) = parse_mmsg c (with_assertions mm l').
+Proof.
+  intros P. rewrite !decomposition. cbn [with_assertions mm_asl]. f_equal.
+  - unfold count_ok, plain_of, enc_of. rewrite (filter_length_perm _ _ _ P), (filter_length_perm x_enc _ _ P). reflexivity.
+  - apply (forallb_perm (fun x => parse_message c (as_msg (with_assertions mm l) x))), P.
+Qed.
+
+(* ---- sequences and clients ---- *)
+Lemma spec_seq_mm_b_iff c ms ids : spec_seq_mm_b c ms ids = true <-> spec_seq_mm c ms ids.
+Proof.
+  unfold spec_seq_mm. revert ids. induction ms as [|m ms IH]; intros [|i ids]; cbn.
+  - split; [constructor | reflexivity].
+  - split; [discriminate | intros H; inversion H].
+  - split; [discriminate | intros H; inversion H].
+  - rewrite andb_true_iff, spec_mm_b_iff, IH. split.
+    + intros [H1 H2]. constructor; assumption.
+    + intros H. inversion H; subst. split; assumption.
+Qed.
+
+Lemma spec_client_mm_b_iff k ms ids : spec_client_mm_b k ms ids = true <-> spec_client_mm k ms ids.
+Proof.
+  unfold spec_client_mm_b, spec_client_mm. destruct (meant_config k) as [c|]; [apply spec_seq_mm_b_iff|].
+  rewrite andb_true_iff, Nat.eqb_eq, forallb_forall, Forall_forall.
+  split; intros [H1 H2]; (split; [exact H1|]); intros i Hi; specialize (H2 i Hi); destruct i; try reflexivity; discriminate.
+Qed.
+
+Lemma sequence_holds_mm c ms : spec_seq_mm c ms (sp_run_mm c ms).
+Proof.
+  unfold spec_seq_mm, sp_run_mm. induction ms as [|m ms IH]; cbn; constructor; [apply policy_holds_mm | exact IH].
+Qed.
+
+Lemma client_holds_mm k ms : spec_client_mm k ms (client_run_mm k ms).
+Proof.
+  unfold spec_client_mm, client_run_mm. rewrite read_config_meant. destruct (meant_config k) as [c|]; [apply sequence_holds_mm|].
+  split; [apply map_length|]. apply Forall_forall. intros i Hi. apply in_map_iff in Hi. destruct Hi as (m & Hm & _). congruence.
+Qed.
+
+(* the sequences of the earlier rounds are the instance "one assertion per Response" *)
+Lemma client_run_embed k ms : client_run_mm k (map embed ms) = client_run k ms.
+Proof.
+  unfold client_run_mm, client_run. destruct (read_config k) as [c|]; [|rewrite map_map; reflexivity].
+  unfold sp_run_mm, sp_run. rewrite map_map. apply map_ext. intros m. apply parse_mmsg_embed.
+Qed.
+
+Lemma spec_mm_b_embed c m i : spec_mm_b c (embed m) i = spec_m_b c m i.
+Proof.
+  unfold spec_mm_b, spec_m_b, satisfied_mm_b, satisfied_m_b, sat_b, otherwise_valid_mm_b, otherwise_valid_b.
+  change (mm_asl (embed m)) with [asn_of m].
+  assert ((Nat.eqb (length (filter (fun x => negb (x_enc x)) [asn_of m])) 1 || Nat.eqb (length (filter x_enc [asn_of m])) 1) = true) as ->
+    by (cbn [filter asn_of x_enc]; destruct (m_enc m); reflexivity).
+  cbn [embed mm_bind mm_rwho mm_rs forallb nonempty asn_of x_who x_sig x_enc].
+  change (rr_state c (embed m)) with (r_state c m). change (x_state c (asn_of m)) with (a_state c m).
+  rewrite !andb_true_r. cbn [andb].
+  set (S := ok_b (r_state c m) && ok_b (a_state c m) && _ && _ && _).
+  destruct i, S, (is_paos (m_bind m)), (has_issuer (a_who m)), (negb (has_issuer (r_who m)) || who_eqb (r_who m) (a_who m)),
+    (sig_in_profile (m_as m)), (sig_in_profile (m_rs m)); reflexivity.
+Qed.
+
+Lemma spec_client_mm_b_embed k ms ids : spec_client_mm_b k (map embed ms) ids = spec_client_b k ms ids.
+Proof.
+  unfold spec_client_mm_b, spec_client_b. destruct (meant_config k) as [c|]; [|rewrite map_length; reflexivity].
+  revert ids. induction ms as [|m ms IH]; intros [|i ids]; cbn; try reflexivity. rewrite spec_mm_b_embed, IH. reflexivity.
+Qed.
+
+(* ---- non-vacuity ---- *)
+Definition xa (k : key) (corrupted e : bool) : asn :=
+  {| x_who := WIdp; x_sig := Some {| signer := k; ki := KiNone; corrupt := corrupted; shp := std |}; x_enc := e |}.
+Definition resp_of (rs : option sgn) (l : list asn) : mmsg := {| mm_rwho := WIdp; mm_rs := rs; mm_asl := l; mm_bind := POST |}.
+
+(* one plain + two encrypted assertions, all genuine: accepted; the second encrypted one made by a key the SP does not
+   trust, or altered: refused, whatever its place; two plain, two encrypted or no assertion: refused by the number rule *)
+Example several_assertions :
+  let c := {| c_wr := B false; c_wa := B true; c_wor := Unset; c_only := Unset |} in
+  sp_run_mm c [resp_of None [xa KIdp false false; xa KIdp false true; xa KIdp false true];
+               resp_of None [xa KIdp false false; xa KIdp false true; xa KAttacker false true];
+               resp_of None [xa KIdp false false; xa KIdp true true; xa KIdp false true];
+               resp_of None [xa KIdp false true; xa KIdp false false; xa KIdp false false];
+               resp_of None [xa KIdp false false; xa KIdp false false];
+               resp_of None [xa KIdp false true; xa KIdp false true];
+               resp_of None []]
+  = [true; false; false; true; false; false; false].
+Proof. reflexivity. Qed.
+
+(* a receiver that verified only the FIRST decrypted assertion (one decryption round before decrypt_assertions, the
+   rest opened by the later loop with verified=True) would yield an identity from a forged second encrypted
+   assertion, and the spec says so *)
+Definition first_only (l : list asn) : list asn := plain_of l ++ firstn 1 (enc_of l).
+Definition parse_mmsg_single_round (c : config) (mm : mmsg) : bool :=
+  count_ok (mm_asl mm) && forallb (fun x => parse_message c (as_msg mm x)) (first_only (mm_asl mm)).
+Example single_round_refuted :
+  let c := {| c_wr := B false; c_wa := B true; c_wor := Unset; c_only := Unset |} in
+  let good := resp_of None [xa KIdp false false; xa KIdp false true; xa KIdp false true] in
+  let bad := resp_of None [xa KIdp false false; xa KIdp false true; xa KAttacker false true] in
+  parse_mmsg_single_round c good = parse_mmsg c good
+  /\ parse_mmsg c bad = false /\ parse_mmsg_single_round c bad = true
+  /\ spec_mm_b c bad true = false /\ spec_mm_b c bad false = true.
+Proof. repeat split; reflexivity. Qed.
